@@ -81,8 +81,178 @@ def gen_text():
     return t
 
 
+# ---------------------------------------------------------------- comparisons (Tifa.visit_Compare, Type.orderable, allows_membership)
+NT = 'pedal/types/new_types.py'
+VISITOR = 'pedal/tifa/tifa_visitor.py'
+CORE_CLASSES = ['NumType', 'IntType', 'FloatType', 'BoolType', 'StrType', 'ListType', 'TupleType', 'SetType', 'LiteralInt', 'LiteralFloat',
+                'LiteralStr', 'LiteralBool']
+COMPARE_SHAPE = r"""left = self\.visit\(node\.left\)
+comparators = \[self\.visit\(compare\) for compare in node\.comparators\]
+for \(?op, right\)? in zip\(node\.ops, comparators\):
+    if isinstance\(op, \(([\w\., ]+)\)\):
+        continue
+    elif isinstance\(op, \(([\w\., ]+)\)\):
+        if type\(right\) in left\.orderable:
+            continue
+    elif isinstance\(op, \(([\w\., ]+)\)\):
+        if right\.allows_membership\(left\):
+            continue
+    self\._issue\(incompatible_types\(self\.locate\(\), op, left, right, report=self\.report\)\)
+return BoolType\(\)"""
+MEMBERSHIP_KINDS = {'return False': 'MNever', 'return True': 'MAlways', 'return is_subtype(key, StrType())': 'MSubStr',
+                    'return is_subtype(key, self.element_type)': 'MElem',
+                    'return any((is_subtype(key, t) for t in self.element_types))': 'MElems',
+                    'return any((is_subtype(key, potential_key) for (potential_key, value) in self.element_types))': 'MKeys'}
+
+
+def _body_src(fn):
+    body = [x for x in fn.body if not (isinstance(x, ast.Expr) and isinstance(x.value, ast.Constant) and isinstance(x.value.value, str))]
+    return '\n'.join(ast.unparse(x) for x in body)
+
+
+def compare_surface():
+    import re
+    tree, _ = pymini.load_module(VISITOR)
+    fn = pymini.find_def(tree, 'Tifa.visit_Compare')
+    m = re.fullmatch(COMPARE_SHAPE, _body_src(fn))
+    if not m:
+        raise Refusal('Tifa.visit_Compare no longer has the modelled shape:\n' + _body_src(fn))
+    groups = []
+    for g in m.groups():
+        names = [x.strip() for x in g.split(',')]
+        if not all(n.startswith('ast.') for n in names):
+            raise Refusal('operator tuple %s' % g)
+        groups.append([n[4:] for n in names])
+    return groups
+
+
+def _frozenset_names(v, consts):
+    if isinstance(v, ast.Name) and v.id in consts:
+        return consts[v.id]
+    if isinstance(v, ast.Call) and isinstance(v.func, ast.Name) and v.func.id == 'frozenset' and not v.keywords:
+        if not v.args:
+            return []
+        if len(v.args) == 1 and isinstance(v.args[0], (ast.List, ast.Tuple, ast.Set)) and all(isinstance(e, ast.Name) for e in v.args[0].elts):
+            return [e.id for e in v.args[0].elts]
+    raise Refusal('orderable value %s' % ast.unparse(v))
+
+
+def class_table():
+    tree, _ = pymini.load_module(NT)
+    return tree, {n.name: n for n in tree.body if isinstance(n, ast.ClassDef)}
+
+
+def linearize(name, classes, seen=None):
+    """syntactic method resolution order (the classes involved use single chains plus the LiteralValue mix-in)"""
+    if name not in classes:
+        return []
+    out = [name]
+    for b in classes[name].bases:
+        if not isinstance(b, ast.Name):
+            raise Refusal('base of %s: %s' % (name, ast.unparse(b)))
+        for c in linearize(b.id, classes):
+            if c not in out:
+                out.append(c)
+    return out
+
+
+def orderable_table():
+    tree, classes = class_table()
+    consts, own = {}, {}
+    accounted = 0
+    for cname, c in classes.items():
+        for st in c.body:
+            if isinstance(st, ast.Assign) and any(isinstance(t, ast.Name) and t.id == 'orderable' for t in st.targets):
+                own[cname] = _frozenset_names(st.value, consts)
+                accounted += 1
+            elif isinstance(st, ast.AnnAssign) and isinstance(st.target, ast.Name) and st.target.id == 'orderable':
+                raise Refusal('annotated orderable in %s' % cname)
+    for st in tree.body:
+        if isinstance(st, ast.Assign):
+            if all(isinstance(t, ast.Name) for t in st.targets):
+                try:
+                    val = _frozenset_names(st.value, consts)
+                except Refusal:
+                    continue
+                for t in st.targets:
+                    consts[t.id] = val
+            elif any(isinstance(t, ast.Attribute) and t.attr == 'orderable' for t in st.targets):
+                if not all(isinstance(t, ast.Attribute) and t.attr == 'orderable' and isinstance(t.value, ast.Name) for t in st.targets):
+                    raise Refusal('mixed orderable assignment %s' % ast.unparse(st))
+                val = _frozenset_names(st.value, consts)
+                for t in st.targets:
+                    own[t.value.id] = val
+                    accounted += 1
+        elif isinstance(st, ast.For):
+            stores = [n for n in ast.walk(st) if isinstance(n, ast.Attribute) and n.attr == 'orderable' and isinstance(n.ctx, ast.Store)]
+            if stores:
+                ok = (isinstance(st.target, ast.Name) and isinstance(st.iter, (ast.List, ast.Tuple)) and all(isinstance(e, ast.Name) for e in st.iter.elts)
+                      and len(st.body) == 1 and not st.orelse and isinstance(st.body[0], ast.Assign)
+                      and ast.unparse(st.body[0]) == '%s.orderable = frozenset([%s])' % (st.target.id, st.target.id))
+                if not ok:
+                    raise Refusal('orderable loop %s' % ast.unparse(st))
+                for e in st.iter.elts:
+                    own[e.id] = [e.id]
+                accounted += 1
+    # every place that stores an `orderable` must have been understood
+    total = sum(1 for n in ast.walk(tree) if (isinstance(n, ast.Attribute) and n.attr == 'orderable' and isinstance(n.ctx, ast.Store)))
+    total_cls = sum(1 for c in classes.values() for st in c.body if isinstance(st, ast.Assign) and any(isinstance(t, ast.Name) and t.id == 'orderable' for t in st.targets))
+    attr_stmt = sum(1 for st in tree.body if isinstance(st, ast.Assign) and any(isinstance(t, ast.Attribute) and t.attr == 'orderable' for t in st.targets))
+    loops = sum(1 for st in tree.body if isinstance(st, ast.For) and any(isinstance(n, ast.Attribute) and n.attr == 'orderable' and isinstance(n.ctx, ast.Store) for n in ast.walk(st)))
+    stores_top = sum(sum(1 for t in st.targets if isinstance(t, ast.Attribute) and t.attr == 'orderable') for st in tree.body if isinstance(st, ast.Assign)) + loops
+    if total != stores_top:
+        raise Refusal('an `orderable` attribute is assigned somewhere the translator does not follow (%d stores, %d understood)' % (total, stores_top))
+    # other modules must not assign it either
+    import glob, os
+    for path in glob.glob(os.path.join(vlib.REPO, 'pedal', '**', '*.py'), recursive=True):
+        if path.endswith('new_types.py'):
+            continue
+        txt = open(path, encoding='utf8').read()
+        if '.orderable' in txt and any(isinstance(n, ast.Attribute) and n.attr == 'orderable' and isinstance(n.ctx, ast.Store) for n in ast.walk(ast.parse(txt))):
+            raise Refusal('orderable assigned in %s' % path)
+    table = []
+    for c in CORE_CLASSES:
+        for k in linearize(c, classes):
+            if k in own:
+                table.append((c, own[k]))
+                break
+        else:
+            raise Refusal('no orderable for %s' % c)
+    return table
+
+
+def membership_table():
+    tree, classes = class_table()
+    table = []
+    for c in CORE_CLASSES:
+        for k in linearize(c, classes):
+            fns = [st for st in classes[k].body if isinstance(st, ast.FunctionDef) and st.name == 'allows_membership']
+            if fns:
+                src = _body_src(fns[0])
+                if src not in MEMBERSHIP_KINDS:
+                    raise Refusal('%s.allows_membership changed: %r' % (k, src))
+                table.append((c, MEMBERSHIP_KINDS[src]))
+                break
+        else:
+            raise Refusal('no allows_membership for %s' % c)
+    return table
+
+
+def gen_compare_text():
+    skip, order, member = compare_surface()
+    t = '\n(* GENERATED from Tifa.visit_Compare (pedal/tifa/tifa_visitor.py) and pedal/types/new_types.py *)\n'
+    t += 'Definition gen_cmp_skip : list string := %s.\n' % clist([cstr(x) for x in skip])
+    t += 'Definition gen_cmp_order : list string := %s.\n' % clist([cstr(x) for x in order])
+    t += 'Definition gen_cmp_member : list string := %s.\n' % clist([cstr(x) for x in member])
+    t += 'Definition gen_orderable : list (string * list string) := [\n  %s\n].\n' % ';\n  '.join(
+        '(%s, %s)' % (cstr(c), clist([cstr(x) for x in v])) for c, v in orderable_table())
+    t += 'Definition gen_membership : list (string * mkind) := [\n  %s\n].\n' % ';\n  '.join(
+        '(%s, %s)' % (cstr(c), k) for c, k in membership_table())
+    return t
+
+
 def translate(ctx):
-    ctx.gen('C19_Gen', gen_text)
+    ctx.gen('C19_Gen', lambda: gen_text() + gen_compare_text())
 
 
 def run(ctx):
@@ -92,11 +262,11 @@ def run(ctx):
 
 # ---------------------------------------------------------------- correspondence
 HEADER = ('From Coq Require Import List String Bool.\nImport ListNotations.\n'
-          'From Pedal Require Import model.C19_Types gen.C19_Gen model.C19_Run.\nOpen Scope string_scope.\n')
+          'From Pedal Require Import model.C19_Types gen.C19_Gen model.C19_Compare model.C19_Run.\nOpen Scope string_scope.\n')
 CORE = ['int', 'float', 'str', 'list', 'tuple']
 CQ = {'int': 'CInt', 'float': 'CFloat', 'str': 'CStr', 'list': 'CList', 'tuple': 'CTuple'}
 BINOPS = ['Add', 'Sub', 'Mult', 'Div', 'FloorDiv', 'Mod', 'Pow', 'LShift', 'RShift', 'BitOr', 'BitXor', 'BitAnd']
-CMPS = ['Lt', 'LtE', 'Gt', 'GtE', 'Eq', 'NotEq', 'In', 'NotIn']
+CMPS = ['Lt', 'LtE', 'Gt', 'GtE', 'Eq', 'NotEq', 'Is', 'IsNot', 'In', 'NotIn']
 PT = {'NumType': 'PNum', 'IntType': 'PInt', 'FloatType': 'PFloat', 'StrType': 'PStr', 'BoolType': 'PBool', 'ListType': 'PList',
       'TupleType': 'PTuple', 'LiteralInt': 'PInt', 'LiteralFloat': 'PFloat', 'LiteralStr': 'PStr'}
 SYM = {'Add': '+', 'Sub': '-', 'Mult': '*', 'Div': '/', 'FloorDiv': '//', 'Mod': '%', 'Pow': '**', 'LShift': '<<', 'RShift': '>>',
@@ -153,7 +323,7 @@ def correspondence(ctx):
               '[True, 1]', '{"k": (1, 2)}', 'set()', '[None, 1]'] + [gen_value(rng, 3) for _ in range(300 if ctx.tier == 'quick' else 3000)]
     res = vlib.run_impl('c19_impl.py', {'cells': cells, 'trees': trees, 'values': values}, timeout=1500)
     # (a) the CPython specification table of the model vs the live interpreter; (b) the model's table vs real TIFA
-    spec_items, tifa_items = [], []
+    spec_items, tifa_items, cmp_spec_items, cmp_items = [], [], [], []
     for (op, a, b), rec in zip(cells, res['cells']):
         ctx.case(('cell', op, a, b), nontrivial=True, sample=rec if (op, a, b) in (('FloorDiv', 'float', 'int'), ('Add', 'tuple', 'tuple')) else None)
         if 'raised' in rec:
@@ -194,6 +364,12 @@ def correspondence(ctx):
                               {'cell': [op, a, b], 'plain': {'incompatible': rec['incompatible'], 'type': rec['type']}, 'augmented': aug,
                                'why': 'r = a %s b is typed %s (incompatible=%s) but  r = a; r %s= b  leaves r typed %s (incompatible=%s)'
                                       % (op, rec['type'], rec['incompatible'], op, aug['type'], aug['incompatible'])})
+        if op in CMPS:
+            cmp_spec_items.append('(%s, %s, %s, %s)' % (cstr(op), CQ[a], CQ[b], vlib.cbool(always_type_error)))
+            cmp_items.append('(%s, %s, %s, %s)' % (cstr(op), CQ[a], CQ[b], vlib.cbool(bool(rec['incompatible']))))
+            for ps in rec.get('per_sample', []):
+                if 'raised' not in ps:
+                    cmp_items.append('(%s, %s, %s, %s)' % (cstr(op), CQ[a], CQ[b], vlib.cbool(bool(ps['incompatible']))))
         if op in BINOPS:
             results = sorted(set(rec['results']))
             if op == 'Mod' and a == 'str':
@@ -211,6 +387,14 @@ def correspondence(ctx):
                    str([tifa_items[i] for k, i, d in bad if k == 'mismatch'][:5]))
     for b in bad[:3]:
         ctx.broken.append(('correspondence', 'C19:table', tifa_items[b[1]] if b[0] == 'mismatch' else b[2]))
+    bad = ctx.coq_cases('cmpspec', HEADER, cmp_spec_items, 'check_cmp_spec')
+    ctx.obligation('spec-table:cpy_cmp_raises-matches-live-CPython(every comparison x type pair, several values each)', not bad,
+                   str([cmp_spec_items[i] for k, i, d in bad if k == 'mismatch'][:5]))
+    bad = ctx.coq_cases('cmptable', HEADER, cmp_items, 'check_tifa_cmp')
+    ctx.obligation('correspondence:comparisons(model over the regenerated visit_Compare surface = real tifa_analysis, every cell on every sample pair)',
+                   not bad, str([cmp_items[i] for k, i, d in bad if k == 'mismatch'][:5]))
+    for b in bad[:3]:
+        ctx.broken.append(('correspondence', 'C19:comparisons', cmp_items[b[1]] if b[0] == 'mismatch' else b[2]))
     # (c) expression trees
     for tree, rec in zip(trees, res['trees']):
         ctx.case(('tree', tree['src'], json.dumps(tree['env'], sort_keys=True)), nontrivial=rec.get('live') == 'ok')
@@ -243,7 +427,7 @@ def correspondence(ctx):
                 'negative, empty) in live CPython and through real tifa_analysis on a two-variable program; random expression trees of '
                 'depth 2-3 over typed variables; nested JSON-like values (ints, floats, bools, strs, None, lists, tuples, dicts, sets) '
                 'typed three times. non-trivial for trees = evaluates without error.')
-    ctx.notes.append('comparisons and value typing (get_pedal_type_from_value / is_subtype / normalize_type) are not modelled in Coq: tested only')
+    ctx.notes.append('value typing (get_pedal_type_from_value / is_subtype / normalize_type) is not modelled in Coq: tested only; membership in a list / tuple is left open by the comparison model (CPython never raises TypeError there)')
 
 
 def pow_culprit(tree):
